@@ -45,6 +45,54 @@ def _alloc_threads(job):
     return {'kind': kind, 'seed': seed, 'trace': trace, 'outcome': outcome, 'errors': errors}
 
 
+def _demo_layers(ctx):
+    """objects in either layer of a demo storage: allocation scenarios of ZDemo (module ZDemoScript evaluated by TLC:
+    _next_oid left on an id of the base, of the changes, an issued one, one issued to an aborted / failed transaction,
+    across push and pop) replayed on real DemoStorage stacks; only what new_oid returns is judged here (C16 judges
+    the rest), by the specification and by an independent monitor over what the real layers hold"""
+    import random
+    from . import c16
+    from ..drivers import demo as dd, demo_scripts as ds
+    from .. import par
+    rng = random.Random(ctx.seed * 31 + 7)
+    combos = [('mapping', 'file'), ('file', 'mapping'), ('mapping', 'mapping')]
+    big = dict(MaxBase=4, MaxTxn=12, MaxClock=7, K=64, MaxLayers=3, MaxNewOid=12, MaxPack=2, MaxUndo=2, PrintObs=True)
+    jobs, index = [], []
+    for b, ck in combos:
+        k = c16.model_key(b, ck)
+        c = c16.mconsts(k, mode=c16.TREE, RefSets='NoRefs', **big)
+        fam = [(f, s2) for f, s2 in ds.families(b, ck, rng) if f in ('new_oid', 'undo-create', 'push')]
+        # allocation around transactions that do not commit: issued ids must stay issued
+        for o in (0, 1):
+            fam.append(('abort', ds.PUSH + ds.newoid(o) + ds.begin(1) + ds.store(o, 'v1', 0) + [{'a': 'abort'}] + ds.newoid(o)
+                        + ds.newoid(1 - o) + ds.commit([(o, 'v1', 0)], 2) + ds.newoid(o) + ds.newoid(1 - o)))
+            fam.append(('abort', ds.commit([(1 - o, 'v1')], 1) + ds.PUSH + ds.newoid(o) + ds.begin(2) + ds.store(o, 'v1', 0)
+                        + [{'a': 'vote'}, {'a': 'abort'}] + ds.newoid(o) + ds.newoid(o) + ds.newoid(1 - o)))
+            fam.append(('abort', ds.PUSH + ds.newoid(o) + ds.newoid(1 - o) + ds.begin(1) + ds.store(o, 'v1', 0)
+                        + [{'a': 'vote'}, {'a': 'finish'}] + ds.begin(2) + ds.store(1 - o, 'v1', 0) + [{'a': 'abort'}]
+                        + ds.newoid(1 - o) + ds.newoid(o)))
+        behs, r = ds.evaluate(ctx.scratch, 'oid-%s-%s' % (b, ck), [s2 for _, s2 in fam], c, workers=4)
+        ctx.add_tlc('ZDemoScript-oid-%s-%s' % (b, ck), r)
+        for (f, _), beh in zip(fam, behs):
+            jobs.append((beh, b, ck, c, os.path.join(ctx.scratch, 'oid-rp-%d' % len(jobs)), {}))
+            index.append(('scenario', f, (b, ck), c))
+    res = par.pmap(dd.replay_behaviour, jobs, chunksize=2)
+    items = [(src, f, job[0], combo, c, r) for (src, f, combo, c), job, r in zip(index, jobs, res)]
+    found = c16.verdicts(items, {})
+    for key in sorted(found):
+        e = found[key]
+        sig = e['sig']
+        if sig.get('action') == 'NewOid' or sig.get('cause', '').startswith('new_oid'):
+            ctx.violation(dict(sig, monitor='demo-layers'), '%s  [%d occurrence(s), on %s]' % (e['desc'], e['n'], ', '.join(sorted(e['combos']))),
+                          replay=e['replay'])
+    n_new = sum(r['actions'].get('NewOid', 0) for r in res)
+    taken = sum(1 for r in res if 'new_oid-taken' in r['tags'])
+    if not ctx.violations and (not n_new or not taken):
+        raise RuntimeError('vacuous run: DemoStorage allocation scenarios never skipped a taken id')
+    return {'behaviours': len(res), 'nontrivial': taken, 'new_oid_calls': n_new, 'skipped_a_taken_id': taken,
+            'sample': res[0]['sig'][:25]}
+
+
 def run(ctx):
     clock.install()
     q = ctx.quick
@@ -82,6 +130,7 @@ def run(ctx):
             ctx.violation({'storage': r['kind'], 'monitor': 'alloc-threads', 'what': 'duplicate'},
                           '%s: concurrent new_oid calls returned a duplicate: %r (seed %d)' % (r['kind'], oids, r['seed']), replay=r)
     cov['threads'] = {'schedules': len(sres), 'validated': len(accepted)}
+    cov['demo'] = _demo_layers(ctx)
     ev = sum(v['behaviours'] for v in cov.values() if 'behaviours' in v) + len(sres)
     return ctx.finish({
         'evaluations': ev,
@@ -92,9 +141,11 @@ def run(ctx):
                 'monitor requires it to be new for the session and absent from the storage; 3 allocator threads x 3 calls on '
                 'FileStorage, MappingStorage and DemoStorage run under the cooperative scheduler (seeded schedules), the calls '
                 'in completion order are validated by TLC against the atomic NewOid (ZOidTrace; demo: distinctness only, its '
-                'ids are random); non-trivial = >= 2 new_oid calls / distinct thread traces',
+                'ids are random); allocation scenarios of ZDemo (ids of the base, of the changes, issued ones, ids issued to aborted '
+                'transactions, across push/pop) are evaluated by TLC and replayed on DemoStorage stacks, new_oid judged by the '
+                'specification and by a monitor over the real layers; non-trivial = >= 2 new_oid calls / distinct thread traces',
         'traces_validated_against_impl': ev,
         'per_storage': cov,
         'samples': [cov[k]['sample'] for k in cov if 'sample' in cov[k]] + [sres[0]['trace']],
         'exhaustive': False,
-    }, ASSUME + ['DemoStorage allocation is decided by C16; concurrent allocators by the scheduler part (to be added)'])
+    }, ASSUME + ['ids issued during an import or a savepoint are covered through Connection.new_oid -> storage.new_oid (C14 / C12 machinery)'])
